@@ -430,7 +430,7 @@ fn exhaustive(thorough: bool) -> Vec<Value> {
                 out.push(s.cut(&[p]));
             }
             out.push(s.sched(json!("bytes")));
-            if thorough || k % 7 == 3 {
+            if thorough || k % (if codec == "prost" { 7 } else { 14 }) == 3 {
                 for p in 1..t {
                     for q in (p + 1)..t {
                         out.push(s.cut(&[p, q]));
